@@ -10,7 +10,6 @@ import (
 	"golang.org/x/tools/go/ssa"
 )
 
-
 func init() {
 	explain("C06", "Static necessary conditions of 'the file reader emits each complete line once with its end-of-line offset', decided over the source of the file input's read loop by def-use analysis with linear integer forms (sums of SSA values, len() terms and constants, conversions looked through): "+
 		"(1) the reader hands data to the pipeline at one site only, control-dependent on a newline having been found in the current read window, and the data ends with that window's prefix through the newline; "+
